@@ -3,8 +3,10 @@ codec functions (conditional expressions, constant tables, divmod, unrolled
 `for` over constant sequences), immutable module-level constants, joint
 resolution of `for`-bound names over literal sequences, fusion of a framing
 loop that was split into `while self._step(): pass` + `_step`, a flag-aware
-view of a CFG (boolean locals that only carry a loop decision), and the
-membership-guard premise for dict subscripts.
+view of a CFG (boolean locals that only carry a loop decision), the
+membership-guard premise for dict subscripts, and a must-alias / nullness
+data-flow of one attribute field (FieldFlow) with the effects of a CFG node on
+the dictionary reached through the field or its aliases (dict_effects).
 
 Nothing in here looks at names of locals or helpers, source text or positions:
 everything is decided on resolved values, normal forms and CFG paths.
